@@ -22,6 +22,7 @@ type FuncVC struct {
 	ContractErr string // non-empty: contract does not resolve against the code (drift)
 	HasContract bool
 	NumLoops    int
+	noPush      bool // render single-obligation scripts without push/pop (non-incremental solver pipeline)
 	vc          *VC
 	entry       *State
 	params      []Val
@@ -94,6 +95,7 @@ func (e *Engine) GenVC(fn *ssa.Function, opts VerifyOpts) (res *FuncVC) {
 	res.HasContract = fr.contract != nil
 	res.NumLoops = len(fr.loopOrd)
 	vc.opaque = map[string]bool{}
+	vc.binderTyping = fr.contract != nil && fr.contract.Options["binder-typing"]
 	if fr.contract != nil && fr.contract.Options["heap-closedness"] {
 		vc.closedness = true
 	}
@@ -220,6 +222,14 @@ func allocBoundTerm(env *Env, ex ast.Expr) string {
 	return env.eval(ex).term()
 }
 
+// ScriptOne renders one obligation without push/pop: z3 then runs its full (non-incremental) pipeline, whose
+// preprocessing and pattern inference decide goals the incremental core leaves unknown.
+func (f *FuncVC) ScriptOne(o *Oblig, timeoutMs int) string {
+	g := *f
+	g.noPush = true
+	return g.Script([]*Oblig{o}, timeoutMs, false)
+}
+
 // Script renders the SMT-LIB script for the given obligations (all if nil).
 func (f *FuncVC) Script(obs []*Oblig, timeoutMs int, models bool) string {
 	var body strings.Builder
@@ -248,8 +258,11 @@ func (f *FuncVC) Script(obs []*Oblig, timeoutMs int, models bool) string {
 		sb.WriteString(preludePtr)
 	}
 	sb.WriteString(bs)
+	single := len(obs) == 1 && f.noPush
 	for _, o := range obs {
-		sb.WriteString("(push 1)\n")
+		if !single {
+			sb.WriteString("(push 1)\n")
+		}
 		if o.IsCover {
 			sb.WriteString("(set-option :timeout 1000)\n")
 		} else if timeoutMs > 0 {
@@ -260,7 +273,9 @@ func (f *FuncVC) Script(obs []*Oblig, timeoutMs int, models bool) string {
 		if models {
 			sb.WriteString("(get-model)\n")
 		}
-		sb.WriteString("(pop 1)\n")
+		if !single {
+			sb.WriteString("(pop 1)\n")
+		}
 	}
 	return sb.String()
 }
@@ -289,7 +304,7 @@ func (fr *Frame) assumeLemma(name string, st *State) {
 	env := &Env{vc: vc, pkg: vc.eng.Pkgs[ct.PkgPath], names: map[string]TV{}, st: st, old: st, inQuant: 1}
 	var vars [][2]string
 	guard := []string{}
-	vc.inBinder++
+	vc.enterBinder()
 	for _, p := range lf.Params {
 		var ts []string
 		for _, l := range leaves(p.Type()) {
@@ -308,7 +323,7 @@ func (fr *Frame) assumeLemma(name string, st *State) {
 	for _, c := range ct.Ensures {
 		ens = append(ens, fr.evalClause(env, c))
 	}
-	vc.inBinder--
+	guard = append(guard, vc.exitBinder()...)
 	body := implies(and(append(guard, req...)...), and(ens...))
 	pats := specAppTerms(and(ens...), vars)
 	q := ""
